@@ -247,6 +247,8 @@ type Obligation struct {
 	ThoroughOnly bool
 	// Replay: how to rebuild the inputs of the verified function from a model (nil: no generic replay)
 	Replay *ReplayPlan
+	// GenericTest: the test generated by the last generic replay of this obligation
+	GenericTest *GenericTest
 }
 
 func (c *Ctx) Fresh(prefix, srt string) Term {
